@@ -161,6 +161,12 @@ structure Cfg where
   createDelay : JVal
   createView : JVal        -- `resource_view` handed to `_prepare_for_api` by `_create_api_resource`
 
+/-- the one ownership decision, taken at two sites that have to agree: `_create_api_resource`
+    (`owned_resource and owner_namespace == namespace` ⇒ the parent's reference goes into the create body) and
+    `reconcile_krm_resource` (`should_own`, ⇒ the live object must carry it).  Namespaces are `None` for
+    cluster-scoped objects and parents: a cluster-scoped parent owns a cluster-scoped object. -/
+def shouldOwnOf (own : Bool) (ownerNs ns : Option String) : Bool := own && (ownerNs == ns)
+
 inductive Req where
   | post (body : JVal)
   | patch (body : JVal)
